@@ -242,6 +242,19 @@ def core_cells(prop, monitors):
     return out
 
 
+BIG_STATES = {"quick": 25000, "thorough": 150000}
+QUICK_MAX_STATES = 45000
+
+
+def load_weights(prop, tier):
+    path = os.path.join(VERIF, "props", "weights.json")
+    try:
+        with open(path) as f:
+            return json.load(f).get(prop, {})
+    except (OSError, ValueError):
+        return {}
+
+
 CROSS_PROPS = ["C01", "C02", "C03", "C04", "C05", "C07", "C08", "C10", "C11", "C12", "C13", "C14", "C15"]
 
 
@@ -271,16 +284,30 @@ def run_property(prop, tier, seed, jobs=None, only=None, budget=None, grid=None,
     t0 = time.time()
     deadline = t0 + budget
     jobs = jobs or min(16, os.cpu_count() or 1, max(1, len(cells)))
+    # scheduling hints (props/weights.json, regenerated by tools_weights.py from a clean run's evidence): the number of
+    # states of each cell the last time it was measured. Only the order of work and the choice "one core / all cores"
+    # depend on it, never what is explored.
+    hints = load_weights(prop, tier)
+    for c in cells:
+        c.setdefault("weight", hints.get(c["name"], 1000))
+    deferred = []
+    if tier == "quick" and not only and not grid:
+        # the quick tier leaves the cells last measured above QUICK_MAX_STATES to the thorough tier (whose grids
+        # contain every quick cell); they are listed in the evidence
+        deferred = sorted(c["name"] for c in cells if c["weight"] > getattr(mod, "QUICK_MAX_STATES", QUICK_MAX_STATES) and not c.get("keep_in_quick"))
+        cells = [c for c in cells if c["name"] not in set(deferred)]
     order = list(range(len(cells)))
     order.sort(key=lambda i: -cells[i].get("weight", 1))
     kkeys = [k["match_key"] for k in load_known() if k["property"] == prop]
     for c in cells:
         c["known_keys"] = kkeys
-    soft = getattr(mod, "SOFT_S", {}).get(tier, 20 if tier == "quick" else 90)
+    soft = getattr(mod, "SOFT_S", {}).get(tier, 30 if tier == "quick" else 90)
     if jobs > 1:
         for c in cells:
             c.setdefault("soft_s", soft)
-    work = [(cells[i], seed, deadline) for i in order]
+    # cells known to be too large for one core within the soft cap go straight to the all-cores search
+    straight = {c["name"] for c in cells if jobs > 1 and c["weight"] > BIG_STATES.get(tier, 10**9) and c.get("world", "pool") in ("pool", "queue")}
+    work = [(cells[i], seed, deadline) for i in order if cells[i]["name"] not in straight]
     results = {}
     if jobs == 1:
         for a in work:
@@ -291,10 +318,13 @@ def run_property(prop, tier, seed, jobs=None, only=None, budget=None, grid=None,
         with ctx.Pool(jobs, maxtasksperchild=8) as pool:
             for r in pool.imap_unordered(run_cell, work, chunksize=1):
                 results[r["name"]] = r
+    _tm = os.environ.get("VERIF_TIMING")
+    if _tm:
+        print(f"[timing] phase1 {time.time() - t0:.1f}s", file=sys.stderr)
     byname = {c["name"]: c for c in cells}
     # phase 2: cells too large for one core within the soft cap are explored again from scratch by
     # all cores sharing one visited table (aiomc/parallel.py), one cell at a time
-    big = [n for n, r in results.items() if r.get("soft_capped")]
+    big = sorted(straight) + [n for n, r in results.items() if r.get("soft_capped")]
     if big:
         from .parallel import explore_parallel
 
@@ -302,8 +332,16 @@ def run_property(prop, tier, seed, jobs=None, only=None, budget=None, grid=None,
             if time.time() > deadline - 2:
                 break
             r = explore_parallel(byname[n], nworkers=min(16, os.cpu_count() or 1), deadline=deadline)
-            r["phase1_states_discarded"] = results[n]["stats"]["states"]
+            r["phase1_states_discarded"] = results[n]["stats"]["states"] if n in results else 0
             results[n] = r
+        for n in straight:
+            if n not in results:  # budget used up before its turn: reported as not explored (incomplete)
+                from .explorer import Stats
+
+                results[n] = {"name": n, "stats": Stats().as_dict(), "violations": [], "observations": 0, "obs_set": set(),
+                              "complete": False, "samples": [], "wall": 0.0}
+    if _tm:
+        print(f"[timing] phase2 done at {time.time() - t0:.1f}s (big cells: {len(big)})", file=sys.stderr)
     # thorough tier: cross-validate the fingerprint abstraction on small cells - every state reached by the
     # unpruned bounded(1) search must be in the pruned search's visited set, with the same terminal observations
     xv_results = []
@@ -336,6 +374,8 @@ def run_property(prop, tier, seed, jobs=None, only=None, budget=None, grid=None,
             with ctx.Pool(1) as pool:
                 carry_execs, carry_bad = pool.apply(carry_over_check, ((picked, 60 if tier == "quick" else 300),))
     wall = time.time() - t0
+    if _tm:
+        print(f"[timing] carry-over done at {wall:.1f}s", file=sys.stderr)
     errors = [r for r in results.values() if "error" in r]
     known = [k for k in load_known() if k["property"] == prop]
     viol_lines = []
@@ -419,6 +459,7 @@ def run_property(prop, tier, seed, jobs=None, only=None, budget=None, grid=None,
             "states_not_fingerprinted_never_merged": tot["unhashable"],
             "cells": len(cellrows),
             "cells_incomplete": incomplete,
+            "cells_left_to_thorough_tier": deferred,
             "per_cell": cellrows,
             "fingerprint_cross_validation": xvals,
             "explanation": getattr(mod, "EXPLANATION", ""),
